@@ -260,8 +260,10 @@ def mon_c08(w, pre, res, queues):
     cell = w.cell
     tuples = {n: (b, a) for (n, b, _eb, a, _ea) in res}
     now_L = pre.now_L
+    truth_state = getattr(w, 'truth_state', lambda _n, st: st)
+    truth_bl = getattr(w, 'truth_blacklisted', lambda _n, flag: flag)
     for sname, ps in pre.servers.items():
-        st = ps['state']
+        st = truth_state(sname, ps['state'])
         if st is State.down:
             down_L = w.down_since_L.get(sname)
             for an in ps['apps']:
@@ -269,7 +271,8 @@ def mon_c08(w, pre, res, queues):
                 p = pre.apps.get(an)
                 if app is None or p is None:
                     continue
-                if p['blacklisted'] or app.blacklisted:
+                if p['blacklisted'] or app.blacklisted or \
+                        truth_bl(an, False):
                     continue
                 if getattr(app, 'final_rank', None) == UNPLACED:
                     continue
@@ -295,7 +298,8 @@ def mon_c08(w, pre, res, queues):
                 p = pre.apps.get(an)
                 if app is None or p is None:
                     continue
-                if p['blacklisted'] or app.blacklisted:
+                if p['blacklisted'] or app.blacklisted or \
+                        truth_bl(an, False):
                     continue
                 # "explicitly marked for unscheduling" is what the harness
                 # asked for on THIS server, not the scheduler's own flag
@@ -316,7 +320,7 @@ def mon_c08(w, pre, res, queues):
                            {'app': w.tmpl.get(an, an), 'server': sname,
                             'state': st.value})
     for a in cell.apps.values():
-        if a.blacklisted:
+        if truth_bl(a.name, a.blacklisted):
             w.stats['c08_blacklisted_checks'] += 1
             if a.server:
                 w.flag('blacklisted-placed',
